@@ -283,7 +283,7 @@ def shared_static_state(ck, F, rid, what_lock):
             reach.add(f.id)
     n_static, bad = 0, 0
     for gv in sorted(F.globals.values(), key=lambda g: (g.get("file") or "", g.get("line") or 0, g.get("name") or "")):
-        if gv.get("const") or "/src/qtlogger/" not in (gv.get("file") or ""):
+        if gv.get("const") or not in_lib(gv.get("file")):
             continue
         if gv.get("staticlocal"):
             if gv.get("function") not in reach:
@@ -334,7 +334,7 @@ def no_deferred_callbacks(ck, F, rid, allowed=()):
     sites = 0
     for fid in sorted(reach):
         f = F.fns.get(fid)
-        if f is None or f.body is None or "/src/qtlogger/" not in (f.file or ""):
+        if f is None or f.body is None or not in_lib(f.file):
             continue
         for n in f.calls():
             c = n.get("callee") or ""
